@@ -347,7 +347,7 @@ def coq_eval_bools(pid, tag, imports, exprs, shard=250, timeout=900, preamble=""
     exprs = list(exprs)
     if not exprs:
         return []
-    d = os.path.join(SCRATCH, pid)
+    d = os.path.join(SCRATCH, "%s.%d" % (pid, os.getpid()))
     os.makedirs(d, exist_ok=True)
     jobs = []
     for k in range(0, len(exprs), shard):
@@ -402,7 +402,7 @@ def coq_eval_bools(pid, tag, imports, exprs, shard=250, timeout=900, preamble=""
 
 def coq_show(pid, imports, expr, timeout=300, preamble=""):
     """Evaluate one Coq expression and return coqc's printed value (for replays)."""
-    d = os.path.join(SCRATCH, pid)
+    d = os.path.join(SCRATCH, "%s.%d" % (pid, os.getpid()))
     os.makedirs(d, exist_ok=True)
     path = os.path.join(d, "show_%d.v" % os.getpid())
     with open(path, "w") as f:
@@ -595,6 +595,21 @@ def run_check(pid, tier, seed, replay=None):
                 extra = [a for a in names if a.split(".")[-1] not in allowed]
                 if extra:
                     ctx.broken("axioms: %s depends on %s" % (nm, extra), txt)
+    # thorough tier: independent re-check of the compiled cone with coqchk, axioms listed
+    if tier == "thorough" and pr["ok"]:
+        rc, out, wall = sh(["coqchk", "-o", "-silent", "-Q", ".", "Bec2", "Bec2.Properties.%s" % pid], 2400, cwd=COQ)
+        summary = out[out.find("CONTEXT SUMMARY"):] if "CONTEXT SUMMARY" in out else out[-1500:]
+        ctx.extra["coqchk"] = {"rc": rc, "wall_s": round(wall, 1), "summary": " ".join(summary.split())[:1500]}
+        m = re.search(r"\* Axioms:(.*?)\* Constants/Inductives relying on type-in-type", summary, re.S)
+        axioms = m.group(1).strip() if m else "?"
+        if rc != 0:
+            ctx.broken("coqchk: independent re-check of Properties/%s.vo failed" % pid, out[-2000:])
+        elif axioms != "<none>":
+            allowed = getattr(mod, "ALLOWED_AXIOMS", ())
+            names = [a for a in re.findall(r"([A-Za-z0-9_.']+)", axioms)]
+            extra = [a for a in names if a.split(".")[-1] not in allowed]
+            if extra:
+                ctx.broken("coqchk: cone of Properties/%s.vo relies on axioms %s" % (pid, extra), axioms)
     # 3./4. correspondence and search (run even when the proof is broken: they
     # look for the concrete failing input)
     model_ok = pr["ok"] or not str(pr.get("failed_at", "")).startswith(("Model/", "Base/", "Gen/"))
@@ -616,5 +631,5 @@ def run_check(pid, tier, seed, replay=None):
             fn(ctx)
         except Exception:
             ctx.broken("%s crashed" % stage, traceback.format_exc())
-    shutil.rmtree(os.path.join(SCRATCH, pid), ignore_errors=True)
+    shutil.rmtree(os.path.join(SCRATCH, "%s.%d" % (pid, os.getpid())), ignore_errors=True)
     return ctx.finish()
